@@ -34,32 +34,54 @@ fn check_serialisation(ctx: &mut Ctx, sm: &SourceMap) -> Result<(), Fail> {
     ctx.op("to_writer");
     sm.to_writer(&mut bytes).map_err(|e| ("serialise-error".to_string(), e.to_string()))?;
     let doc: Value = serde_json::from_slice(&bytes).map_err(|e| ("invalid-json".to_string(), e.to_string()))?;
-    // expected flags per line over written tokens
-    let n_lines = w.iter().map(|t| t.dst_line as usize + 1).max().unwrap_or(0);
-    let mut want: Vec<Vec<usize>> = vec![vec![]; n_lines];
-    let mut per_line = vec![0usize; n_lines];
-    for t in &w {
-        let l = t.dst_line as usize;
-        if t.is_range {
-            want[l].push(per_line[l]);
-        }
-        per_line[l] += 1;
-    }
+    // What an independent reader sees: the segments of 'mappings' in text order, each flagged by the
+    // bit of 'rangeMappings' with its line and segment index. Which exact duplicates the encoder
+    // leaves out is its own business (the statement only asks that the same tokens are ranges), so
+    // both sides are compared modulo consecutive exact duplicates and the bit positions are taken
+    // from the text that was actually written.
     let text = String::from_utf8_lossy(&bytes[..bytes.len().min(1200)]).to_string();
     let got: Vec<Vec<usize>> = match doc.get("rangeMappings") {
         None => vec![],
         Some(Value::String(s)) => rmi::decode(s).map_err(|b| ("rangeMappings-foreign-byte".to_string(), format!("rangeMappings {s:?} contains byte {b:#x}")))?,
         Some(other) => return Err(("rangeMappings-type".into(), format!("rangeMappings is {other}"))),
     };
-    for l in 0..n_lines.max(got.len()) {
-        let g = got.get(l).cloned().unwrap_or_default();
-        let wv = want.get(l).cloned().unwrap_or_default();
-        if g != wv {
+    let mappings = doc.get("mappings").and_then(Value::as_str).ok_or_else(|| ("mappings-missing".to_string(), text.clone()))?;
+    let n_sources = doc.get("sources").and_then(Value::as_array).map_or(0, Vec::len);
+    let n_names = doc.get("names").and_then(Value::as_array).map_or(0, Vec::len);
+    let segs = crate::reference::mappings::decode(mappings, n_sources, n_names).map_err(|e| ("mappings-unreadable".to_string(), format!("{e:?}; output: {text}")))?;
+    type Seen = (i128, i128, Option<(i128, i128, i128, Option<i128>)>, bool);
+    let mut seen: Vec<Seen> = vec![];
+    let mut used: Vec<Vec<usize>> = vec![vec![]; got.len()];
+    for (t, seg_index) in &segs {
+        let flagged = got.get(t.dl as usize).is_some_and(|f| f.contains(seg_index));
+        if flagged {
+            used[t.dl as usize].push(*seg_index);
+        }
+        seen.push((t.dl, t.dc, t.src.map(|s| (s.id, s.line, s.col, s.name)), flagged));
+    }
+    for (l, g) in got.iter().enumerate() {
+        if g.len() != used[l].len() {
             return Err((
                 "rangeMappings-bits".into(),
-                format!("line {l}: rangeMappings marks mappings {g:?} as ranges, the map's range tokens are mappings {wv:?} of that line; output: {text}"),
+                format!("line {l}: rangeMappings marks mappings {g:?} as ranges, but only {:?} of them exist on that line; output: {text}", used[l]),
             ));
         }
+    }
+    let mut want: Vec<Seen> = w
+        .iter()
+        .map(|t| {
+            let src = (t.src_id != !0).then(|| (i128::from(t.src_id), i128::from(t.src_line), i128::from(t.src_col), (t.name_id != !0).then(|| i128::from(t.name_id))));
+            (i128::from(t.dst_line), i128::from(t.dst_col), src, t.is_range)
+        })
+        .collect();
+    want.dedup();
+    seen.dedup();
+    if want != seen {
+        let i = want.iter().zip(&seen).position(|(x, y)| x != y).unwrap_or(want.len().min(seen.len()));
+        return Err((
+            "rangeMappings-bits".into(),
+            format!("mappings + rangeMappings as read by an independent reader differ from the map's tokens at #{i} (line, column, source, is_range): map {:?}, written {:?}; output: {text}", want.get(i), seen.get(i)),
+        ));
     }
     // decode again: is_range per token
     ctx.op("decode_slice");
